@@ -38,7 +38,10 @@ pub enum Op {
     Refresh { r: usize },
     Reload { r: usize },
     /// `reload_until(H)` for a set of heads this replica had before (checkpoint `sel`)
-    ReloadUntil { r: usize, sel: u32 },
+    /// `of`: whose recorded head sets to choose from (the replica's own when equal to `r`); `extra` > 0
+    /// adds the heads of an older head set of the same replica to the request (a hand-built anchor set in
+    /// which one block is an ancestor of another)
+    ReloadUntil { r: usize, sel: u32, of: usize, extra: u32 },
     /// `resolve_as(in_conflict[obj_sel], leaves[leaf_sel])`
     Resolve { r: usize, obj_sel: u32, leaf_sel: u32 },
     Unstage { r: usize },
@@ -136,7 +139,7 @@ impl Op {
             Meld { r, from } => json!({"op":"meld","r":r,"from":from}),
             Refresh { r } => json!({"op":"refresh","r":r}),
             Reload { r } => json!({"op":"reload","r":r}),
-            ReloadUntil { r, sel } => json!({"op":"reload_until","r":r,"sel":sel}),
+            ReloadUntil { r, sel, of, extra } => json!({"op":"reload_until","r":r,"sel":sel,"of":of,"extra":extra}),
             Resolve { r, obj_sel, leaf_sel } => json!({"op":"resolve","r":r,"obj_sel":obj_sel,"leaf_sel":leaf_sel}),
             Unstage { r } => json!({"op":"unstage","r":r}),
             StageRoundTrip { r } => json!({"op":"stage_roundtrip","r":r}),
@@ -171,7 +174,7 @@ impl Op {
             "meld" => Op::Meld { r: u("r")?, from: u("from")? },
             "refresh" => Op::Refresh { r: u("r")? },
             "reload" => Op::Reload { r: u("r")? },
-            "reload_until" => Op::ReloadUntil { r: u("r")?, sel: u32_("sel")? },
+            "reload_until" => Op::ReloadUntil { r: u("r")?, sel: u32_("sel")?, of: u("of").unwrap_or(u("r")?), extra: u32_("extra").unwrap_or(0) },
             "resolve" => Op::Resolve { r: u("r")?, obj_sel: u32_("obj_sel")?, leaf_sel: u32_("leaf_sel")? },
             "unstage" => Op::Unstage { r: u("r")? },
             "stage_roundtrip" => Op::StageRoundTrip { r: u("r")? },
